@@ -7,6 +7,15 @@ theorem thr_setPc_self (s : Sys) (t : Tid) (pc : Pc) (h : t < s.threads.length) 
   unfold Sys.thr Sys.setPc
   simp [List.getD_eq_getElem?_getD, List.getElem?_modify, h]
 
+@[simp] theorem note_threads (s : Sys) (e) : (s.note e).threads = s.threads := rfl
+@[simp] theorem note_ps (s : Sys) (e n) : (s.note e).ps n = s.ps n := rfl
+@[simp] theorem note_inst (s : Sys) (e i) : (s.note e).inst i = s.inst i := rfl
+@[simp] theorem note_nameOf (s : Sys) (e i) : (s.note e).nameOf i = s.nameOf i := rfl
+@[simp] theorem note_thr (s : Sys) (e t) : (s.note e).thr t = s.thr t := rfl
+
+theorem thr_setPc_note_self (s : Sys) (e : GateEv) (t : Tid) (pc : Pc) (h : t < s.threads.length) :
+    (((s.note e).setPc t pc).thr t).pc = pc := thr_setPc_self (s.note e) t pc h
+
 @[simp] theorem setPc_ps (s : Sys) (t pc n) : (s.setPc t pc).ps n = s.ps n := rfl
 @[simp] theorem setPc_inst (s : Sys) (t pc i) : (s.setPc t pc).inst i = s.inst i := rfl
 @[simp] theorem emit_ps (s : Sys) (o n) : (s.emit o).ps n = s.ps n := rfl
